@@ -89,6 +89,7 @@ type impStack struct {
 	ctx  context.Context
 	feat Feat
 	a, b ledgercontroller.Controller
+	dead bool
 }
 
 func newImpStack(f Feat) *impStack {
@@ -318,8 +319,16 @@ func (s *impStack) write(ctrl ledgercontroller.Controller, path string, now int6
 		rs := make([]string, len(ops))
 		for i, o := range ops {
 			s.st.PG.Clock = pgsem.TS(o.Now)
+			if s.dead {
+				rs[i] = L("skipped")
+				shapes = append(shapes, wres{Class: "skipped", TxID: -1})
+				continue
+			}
 			r := runOp(s.ctx, ctrl, o)
 			rs[i] = r.sx()
+			if r.Panic != "" {
+				s.dead = true // the SQL transaction (and the ledger lock) of a panicking operation is leaked: the stack is unusable afterwards
+			}
 			w := wres{Ok: r.Panic == "" && r.Class == "none", Class: r.Class, TxID: -1}
 			if r.Panic != "" {
 				w.Class = "panic"
@@ -436,6 +445,10 @@ func (s *impStack) script(run *impRun, logs []ledger.Log) *impRun {
 	maxLog, maxTx := int64(0), int64(0)
 	diverged := false
 	for _, a := range c.Script {
+		if s.dead {
+			run.Results = append(run.Results, L("skipped"))
+			continue
+		}
 		switch a.Kind {
 		case "import":
 			before := s.st.Snapshot(s.ctx, s.b, "l2", c.Feat)
@@ -513,7 +526,7 @@ func (s *impStack) script(run *impRun, logs []ledger.Log) *impRun {
 			}
 			if pristineFull {
 				// C11 writability: the same request on the source gives the same answers; ids continue above the imported ones
-				if !diverged {
+				if !diverged && !s.dead {
 					_, onA := s.write(s.a, a.Path, a.Now, a.Ops)
 					for i := range shapes {
 						if i >= len(onA) {
@@ -546,7 +559,12 @@ func (s *impStack) script(run *impRun, logs []ledger.Log) *impRun {
 			}
 		}
 	}
-	run.Final = s.st.Snapshot(s.ctx, s.b, "l2", c.Feat)
+	if s.dead {
+		run.Final = Snap{Err: "stack unusable after a panic"}
+		run.Viol = append(run.Viol, "C11|a write on the copy panicked: [c11-write-panic]")
+	} else {
+		run.Final = s.st.Snapshot(s.ctx, s.b, "l2", c.Feat)
+	}
 	return run
 }
 
